@@ -179,12 +179,23 @@ fn hfault(m: impl Into<String>) -> Failure {
 async fn write_case(fx: &Fixture, c: &WriteCase) -> Result<Result<(bool, bool), String>, Failure> {
     let (cc, sc) = connect(fx, &c.windows, None).await.map_err(hfault)?;
     let mut conn = h3_quinn::Connection::new(cc.clone());
+    // everything handed over is a pure function of the case: the complete expected wire image is known up front,
+    // and the raw quinn reader is an online monitor (a duplicated or reordered prefix is a violation at the first
+    // differing byte, not a stall that only the watchdog ends)
     let mut expected: Vec<u8> = Vec::new();
+    for (k, f) in c.frames.iter().enumerate() {
+        match f {
+            FrameSpec::Raw(n) => expected.extend_from_slice(&prf_bytes(k as u64 + 900, *n)),
+            _ => expected.extend(drain(make_buf(f, k).unwrap())),
+        }
+    }
+    let expected = Arc::new(expected);
     let mut refused = false;
     let mut used_poll_send = false;
     // reader on the raw quinn side
     let bidi = c.bidi;
-    let reader = tokio::spawn(async move {
+    let exp = expected.clone();
+    let mut reader = tokio::spawn(async move {
         let mut rx = if bidi {
             let (_tx, rx) = sc.accept_bi().await.map_err(|e| format!("accept_bi: {e}"))?;
             std::mem::forget(_tx);
@@ -192,15 +203,26 @@ async fn write_case(fx: &Fixture, c: &WriteCase) -> Result<Result<(bool, bool), 
         } else {
             sc.accept_uni().await.map_err(|e| format!("accept_uni: {e}"))?
         };
-        let mut got = Vec::new();
+        let mut got = 0usize;
         loop {
             match rx.read_chunk(usize::MAX, true).await {
-                Ok(Some(ch)) => got.extend_from_slice(&ch.bytes),
+                Ok(Some(ch)) => {
+                    let b = &ch.bytes[..];
+                    let want = &exp[got.min(exp.len())..(got + b.len()).min(exp.len())];
+                    if want != b {
+                        let n = got + b.iter().zip(want.iter()).take_while(|(a, b)| a == b).count();
+                        return Err(format!("the peer has read {} bytes, {} were handed over; first difference at offset {n}", got + b.len(), exp.len()));
+                    }
+                    got += b.len();
+                }
                 Ok(None) => break,
                 Err(e) => return Err(format!("peer read: {e}")),
             }
         }
-        Ok::<_, String>((got, sc))
+        if got != exp.len() {
+            return Err(format!("the stream ended after {got} bytes, {} were handed over", exp.len()));
+        }
+        Ok::<_, String>(sc)
     });
     enum S {
         Bi(h3_quinn::BidiStream<Bytes>),
@@ -219,64 +241,82 @@ async fn write_case(fx: &Fixture, c: &WriteCase) -> Result<Result<(bool, bool), 
             }
         };
     }
-    for (k, f) in c.frames.iter().enumerate() {
-        match f {
-            FrameSpec::Raw(n) => {
-                used_poll_send = true;
-                let data = prf_bytes(k as u64 + 900, *n);
-                expected.extend_from_slice(&data);
-                let mut b = Bytes::from(data);
-                while b.has_remaining() {
-                    let before = b.remaining();
-                    let r = on!(&mut s, x => std::future::poll_fn(|cx| x.poll_send(cx, &mut b)).await);
-                    match r {
-                        Ok(w) => {
-                            if before - b.remaining() != w {
-                                return Ok(Err(format!("poll_send reported {w} bytes written but advanced the buffer by {}", before - b.remaining())));
+    let writer = async move {
+        for (k, f) in c.frames.iter().enumerate() {
+            match f {
+                FrameSpec::Raw(n) => {
+                    used_poll_send = true;
+                    let data = prf_bytes(k as u64 + 900, *n);
+                    let mut b = Bytes::from(data);
+                    while b.has_remaining() {
+                        let before = b.remaining();
+                        let r = on!(&mut s, x => std::future::poll_fn(|cx| x.poll_send(cx, &mut b)).await);
+                        match r {
+                            Ok(w) => {
+                                if before - b.remaining() != w {
+                                    return Err(format!("poll_send reported {w} bytes written but advanced the buffer by {}", before - b.remaining()));
+                                }
+                                if w == 0 {
+                                    return Err("poll_send wrote 0 bytes of a non-empty buffer".into());
+                                }
                             }
-                            if w == 0 {
-                                return Ok(Err("poll_send wrote 0 bytes of a non-empty buffer".into()));
-                            }
+                            Err(e) => return Err(format!("poll_send failed: {e}")),
                         }
-                        Err(e) => return Ok(Err(format!("poll_send failed: {e}"))),
                     }
                 }
-            }
-            _ => {
-                expected.extend(drain(make_buf(f, k).unwrap()));
-                let wb = make_buf(f, k).unwrap();
-                if let Err(e) = on!(&mut s, x => x.send_data(wb)) {
-                    return Ok(Err(format!("send_data refused on an idle stream: {e}")));
-                }
-                if c.double_send {
-                    // a new write while the earlier one is unfinished must be refused and contribute nothing
-                    let again = WriteBuf::from(Frame::Data(Bytes::from_static(b"MUST-NOT-APPEAR")));
-                    match on!(&mut s, x => x.send_data(again)) {
-                        Err(_) => refused = true,
-                        Ok(()) => return Ok(Err("a second send_data was accepted while the first write was unfinished".into())),
+                _ => {
+                    let wb = make_buf(f, k).unwrap();
+                    if let Err(e) = on!(&mut s, x => x.send_data(wb)) {
+                        return Err(format!("send_data refused on an idle stream: {e}"));
                     }
-                }
-                if let Err(e) = on!(&mut s, x => std::future::poll_fn(|cx| x.poll_ready(cx)).await) {
-                    return Ok(Err(format!("poll_ready failed: {e}")));
+                    if c.double_send {
+                        // a new write while the earlier one is unfinished must be refused and contribute nothing
+                        let again = WriteBuf::from(Frame::Data(Bytes::from_static(b"MUST-NOT-APPEAR")));
+                        match on!(&mut s, x => x.send_data(again)) {
+                            Err(_) => refused = true,
+                            Ok(()) => return Err("a second send_data was accepted while the first write was unfinished".into()),
+                        }
+                    }
+                    if let Err(e) = on!(&mut s, x => std::future::poll_fn(|cx| x.poll_ready(cx)).await) {
+                        return Err(format!("poll_ready failed: {e}"));
+                    }
                 }
             }
         }
-    }
-    if let Err(e) = on!(&mut s, x => std::future::poll_fn(|cx| x.poll_finish(cx)).await) {
-        return Ok(Err(format!("poll_finish failed: {e}")));
-    }
-    let (got, sc) = match reader.await {
+        if let Err(e) = on!(&mut s, x => std::future::poll_fn(|cx| x.poll_finish(cx)).await) {
+            return Err(format!("poll_finish failed: {e}"));
+        }
+        Ok::<_, String>((s, refused, used_poll_send))
+    };
+    tokio::pin!(writer);
+    // the monitor's verdict wins: a byte the peer should never have seen decides the case even if the writer is stuck
+    let mut wrote = None;
+    let read = tokio::select! {
+        biased;
+        r = &mut reader => r,
+        w = &mut writer => {
+            match w {
+                Ok(x) => wrote = Some(x),
+                Err(m) => return Ok(Err(m)),
+            }
+            (&mut reader).await
+        }
+    };
+    let sc = match read {
         Ok(Ok(x)) => x,
         Ok(Err(e)) => return Ok(Err(e)),
         Err(e) => return Err(hfault(format!("reader task: {e}"))),
     };
+    let (s, refused, used_poll_send) = match wrote {
+        Some(x) => x,
+        None => match writer.await {
+            Ok(x) => x,
+            Err(m) => return Ok(Err(m)),
+        },
+    };
     drop(s);
     cc.close(0u32.into(), b"done");
     drop(sc);
-    if got != expected {
-        let n = got.iter().zip(expected.iter()).take_while(|(a, b)| a == b).count();
-        return Ok(Err(format!("the peer read {} bytes, {} were handed over; first difference at offset {n}", got.len(), expected.len())));
-    }
     Ok(Ok((refused, used_poll_send)))
 }
 
